@@ -746,7 +746,10 @@ def _skip_event(*events, **kwargs):
     if changed is None:
         return False
     for e in events:
-        for p in changed:
+        subpaths = changed.get(e.name) if isinstance(changed, dict) else changed
+        if subpaths is None:
+            return False
+        for p in subpaths:
             if what == 'value':
                 old = Undefined if e.old is None else _getattrr(e.old, p, None)
                 new = Undefined if e.new is None else _getattrr(e.new, p, None)
@@ -2376,8 +2379,18 @@ class Parameters:
         if dynamic_dep is None:
             subparams, callback, what = None, None, param_dep.what
         else:
-            subparams, callback, what = self_._resolve_dynamic_deps(
-                obj, dynamic_dep, param_dep, attribute)
+            # Every dependency of the group contributes the sub-paths to compare
+            # for events on its own parameter, and any of them may require the
+            # parent object to be notified.
+            subparams, callback, what = {}, None, param_dep.what
+            for ddep, pdep in group:
+                sp, cb, what = self_._resolve_dynamic_deps(obj, ddep, pdep, attribute)
+                callback = callback or cb
+                known = subparams.setdefault(pdep.name, [])
+                if sp is None or known is None:
+                    subparams[pdep.name] = None
+                else:
+                    known.extend(p for p in sp if p not in known)
 
         mcaller = _m_caller(obj, name, what, subparams, callback)
         return dep_obj.param._watch(
